@@ -75,9 +75,26 @@ def r1_logger(ctx):
                     return TOP
 
                 def bm(interp, env, f, args):
-                    return Ref(log_home, [], frame="root") if (f.get("gargs") or [""])[0] == LOG + "log::Log" else TOP
+                    g0 = (f.get("gargs") or [""])[0]
+                    if g0 == LOG + "log::Log":
+                        return Ref(log_home, [], frame="root")
+                    if g0.startswith(CONF + "<"):
+                        return Ref(conf_home, [], frame="root")
+                    return TOP
+
+                def take_conf(interp, env, f, args):
+                    if not (f.get("gargs") or [""])[0].startswith(CONF + "<"):
+                        return TOP
+                    return ok(interp.read_ref(env, Ref(conf_home, [], frame="root")))
+
+                def put_conf(interp, env, f, args):
+                    if not (f.get("gargs") or [""])[0].startswith(CONF + "<"):
+                        return TOP
+                    interp.write_ref(env, Ref(conf_home, [], frame="root"), load(interp, env, args[1]))
+                    return NONE
                 table = {COND + "::evaluate": ev, LOG + "extractor::EntryExtractor::extract_entry": ex, "mahf::state::State::holding": holding,
                          "mahf::state::registry::StateRegistry::contains": True, "mahf::state::registry::StateRegistry::borrow_mut": bm,
+                         "mahf::state::registry::StateRegistry::remove": take_conf, "mahf::state::registry::StateRegistry::insert": put_conf,
                          "mahf::state::State::iterations": Sym("iterations-now")}
                 it = install(Interp(fn.body, chain(mk_oracle(table), coll_oracle, std_oracle), [Sym("self"), Sym("problem"), Sym("state")], facts=F, inline=INL, max_visits=12, max_paths=100))
                 log_idx = F.field_index(LOG + "log::Log", "steps")
@@ -108,7 +125,7 @@ def r1_logger(ctx):
                         continue
                     st = steps[1]
                     ents = p.mstate["heap"].get(st.fields[0].vid, ()) if isinstance(st, Agg) and isinstance(st.fields[0], Vec) else None
-                    got = [(getattr(e.fields[F.field_index(ENTRY, "name")], "tag", "?"), getattr(load_val(e.fields[F.field_index(ENTRY, "value")]), "tag", "?")) for e in ents] if ents is not None else None
+                    got = [(getattr(e.fields[F.field_index(ENTRY, "name")], "tag", "?"), getattr(load_val(e.fields[F.field_index(ENTRY, "value")]), "tag", "?")) if isinstance(e, Agg) else ("?", "?") for e in ents] if ents is not None else None
                     if got != want_entries:
                         bad.append(ctxs + ("logs the step %s, expected %s" % (got, want_entries),))
     ctx.check(not bad, "C15.R1", fn.key, "one-step-per-firing-execution",
@@ -429,6 +446,7 @@ def r5_to_ron(ctx):
 
 
 def run(ctx):
+    ctx.guard("C15.R10", "the logger leaves its LogConfig in the scope it lives in", lambda: r10_config_stays(ctx))
     ctx.guard("C15.R9", "the exports write the compressed form of the whole log", lambda: r9_exports(ctx))
     ctx.guard("C15.R8", "the logger initialises its triggers", lambda: r8_logger_init(ctx))
     ctx.guard("C15.R7", "the logger reaches its LogConfig through State::holding: T is put back into the scope it came from", lambda: __import__("c02").r4_holding(ctx, "C15.R7"))
@@ -600,3 +618,94 @@ def r9_exports(ctx):
                     bad.append(label + ("serialises although the file could not be created",))
         ctx.check(not bad, "C15.R9", fn.key, "whole-log-compressed-into-the-file", "%s: %s %s" % ((bad[0][0], name, bad[0][1]) if bad else ("", name, "")), loc=fn.loc())
     ctx.count("export_scenarios", n)
+
+
+def r10_config_stays(ctx):
+    """K6 with the registry a chain of three scopes (the Logger runs in scope 0, the LogConfig lives in scope 0, 1 or 2 -
+    a logger inside a Scope / nested Scopes whose configuration sits in the enclosing state): after init and after execute the
+    LogConfig is in exactly the scope it was in (the real State::holding is evaluated, and so is taking it out and putting it
+    back by hand).  A LogConfig that ends up in the logger's own scope is dropped when that scope ends, and every later logger
+    execution silently logs nothing."""
+    F = ctx.facts
+    CONF = LOG + "config::LogConfig"
+    RREG = "mahf::state::registry::StateRegistry::"
+    reg_i = F.field_index("mahf::state::State", "registry")
+    nf = len(F.adt("mahf::state::State")["variants"][0]["fields"])
+    conf_home, log_home = 10002, 10001
+    for meth in ("init", "execute"):
+        fn = F.method(LOG + "logger::Logger", meth, "mahf::components::Component")
+        bad = []
+        for level in (0, 1, 2):
+            def oracle(interp, env, f, args, t, bb, path):
+                k = f.get("key", "")
+                nm = f.get("name")
+                ga = (f.get("cgargs") or f.get("gargs") or [None])[0] or ""
+                ms = interp.mstate
+                if k.startswith(RREG) and (ga.startswith(CONF + "<") or "::holding::" in ga):
+                    which = "conf" if ga.startswith(CONF + "<") else "marker"
+                    holders = list(ms.get(which, ()))
+                    recv = load(interp, env, args[0]) if args else None
+                    lvl = int(recv.tag[4:]) if isinstance(recv, Sym) and recv.tag.startswith("reg:") else None
+                    if lvl is None:
+                        return TOP
+                    visible = [h for h in holders if h >= lvl]
+                    if nm in ("find_mut", "find"):
+                        return ok(Sym("reg:%d" % min(visible))) if visible else err(Sym("StateError::NotFound"))
+                    if nm in ("contains", "has"):
+                        return bool(visible)
+                    if nm == "contains_at_top":
+                        return lvl in holders
+                    if nm == "insert":
+                        was = lvl in holders
+                        if not was:
+                            holders.append(lvl)
+                        ms[which] = tuple(sorted(holders))
+                        return some(Sym("displaced")) if was else NONE
+                    if nm in ("remove", "take", "try_remove"):
+                        if not visible:
+                            return err(Sym("StateError::NotFound")) if nm != "take" else "DIVERGE"
+                        holders.remove(min(visible))
+                        ms[which] = tuple(sorted(holders))
+                        v = interp.read_ref(env, Ref(conf_home, [], frame="root")) if which == "conf" else Sym("the-marker")
+                        return v if nm == "take" else ok(v)
+                    if which == "conf" and nm in ("borrow", "borrow_mut", "try_borrow", "try_borrow_mut"):
+                        r = Ref(conf_home, [], frame="root")
+                        if not visible:
+                            return err(Sym("StateError::NotFound")) if nm.startswith("try_") else "DIVERGE"
+                        return ok(r) if nm.startswith("try_") else r
+                    return TOP
+                if k == RREG + "borrow_mut" and ga == LOG + "log::Log":
+                    return Ref(log_home, [], frame="root")
+                if k in (COND + "::evaluate",):
+                    return ok(True)
+                if k in (COND + "::init",):
+                    return ok(Agg("tuple", None, None, []))
+                if k == LOG + "extractor::EntryExtractor::extract_entry":
+                    vals = [None, None]
+                    vals[F.field_index(ENTRY, "name")] = Sym("a")
+                    vals[F.field_index(ENTRY, "value")] = Sym("value")
+                    return Agg("adt", ENTRY, "Entry", vals)
+                if k == "mahf::state::State::iterations":
+                    return Sym("iterations-now")
+                return TOP
+            RULE = LOG + "config::ExtractionRule"
+            ti, xi = F.field_index(RULE, "trigger"), F.field_index(RULE, "extractor")
+            rv = [None, None]
+            rv[ti] = Sym("trigger:0", boxlike=True)
+            rv[xi] = Sym("extractor:0", boxlike=True)
+            vals = [Sym("phantom")] * nf
+            vals[reg_i] = Sym("reg:0")
+            home = 11001
+            inl = lambda k: INL(k) or k.startswith("mahf::state::State::holding") or k.startswith("<mahf::state::State as core::ops::deref")
+            it = install(Interp(fn.body, chain(oracle, coll_oracle, std_oracle), [Sym("self"), Sym("problem"), Ref(home, [], frame="root")], facts=F, inline=inl, max_visits=12, max_paths=100))
+            it.extra_env = {home: Agg("adt", "mahf::state::State", "State", vals), log_home: Agg("adt", LOG + "log::Log", "Log", [Vec("steps")]), conf_home: Agg("adt", CONF, "LogConfig", [Vec("rules")])}
+            it.init_state = {"heap": {"steps": (), "rules": (Agg("adt", RULE, "ExtractionRule", rv),)}, "next_vec": 0, "conf": (level,), "marker": ()}
+            where = ["its own scope", "the enclosing scope", "the scope two levels up"][level]
+            paths = it.run()
+            if len(paths) != 1 or paths[0].end != "return" or not (isinstance(paths[0].ret, Agg) and paths[0].ret.variant == "Ok"):
+                bad.append((where, "is not decided / does not complete (%s)" % [(p.end, str(p.ret)[:40]) for p in paths]))
+                continue
+            ms = paths[0].mstate
+            if tuple(ms.get("conf", ())) != (level,) or ms.get("marker"):
+                bad.append((where, "leaves the LogConfig in scope(s) %s (placeholder left in %s); expected it back in scope %d" % (list(ms.get("conf", ())), list(ms.get("marker", ())), level)))
+        ctx.check(not bad, "C15.R10", fn.key, "config-stays-in-its-scope", "LogConfig in %s: Logger::%s %s" % ((bad[0][0], meth, bad[0][1]) if bad else ("", meth, "")), loc=fn.loc())
